@@ -10,6 +10,7 @@ import (
 	"runtime/debug"
 	"sort"
 	"strings"
+	"sync"
 	"testing"
 	"time"
 
@@ -40,7 +41,7 @@ func (w wildDoc) build() *sbom.Document {
 
 var wildOps = []string{"nil_metadata", "empty_metadata", "nil_nodelist", "empty_nodelist", "nil_node_elem", "nil_edge_elem", "nil_doctype_elem", "nil_person_elem",
 	"nil_extref_elem", "nil_tool_elem", "doctype_no_name", "doctype_only_type", "doctype_runtime", "doctype_bad_enum", "doctype_other_no_name", "dup_ids", "empty_id", "no_roots", "many_roots",
-	"dangling_root", "dangling_edge", "self_contain", "contain_cycle", "diamonds", "bad_node_type", "bad_edge_type", "nonnumeric_version", "one_root", "fresh_unmarshal"}
+	"dangling_root", "dangling_edge", "self_contain", "contain_cycle", "island_cycle", "diamonds", "bad_node_type", "bad_edge_type", "nonnumeric_version", "one_root", "fresh_unmarshal"}
 
 func applyWildOp(doc *sbom.Document, op string) {
 	nl := doc.NodeList
@@ -130,6 +131,16 @@ func applyWildOp(doc *sbom.Document, op string) {
 			for i := range ids {
 				nl.Edges = append(nl.Edges, &sbom.Edge{From: ids[i], Type: sbom.Edge_contains, To: []string{ids[(i+1)%len(ids)]}})
 			}
+		}
+	case "island_cycle":
+		// a containment cycle among nodes that nothing outside the cycle contains (so no walk from the top reaches it):
+		// which member ends up on top is a choice the serializer must make the same way every time
+		k := 2 + len(ids)%3
+		for i := 0; i < k; i++ {
+			nl.Nodes = append(nl.Nodes, &sbom.Node{Id: fmt.Sprintf("isle-%d", i), Name: fmt.Sprintf("isle %d", i), Version: "1"})
+		}
+		for i := 0; i < k; i++ {
+			nl.Edges = append(nl.Edges, &sbom.Edge{From: fmt.Sprintf("isle-%d", i), Type: sbom.Edge_contains, To: []string{fmt.Sprintf("isle-%d", (i+1)%k)}})
 		}
 	case "diamonds":
 		// a chain of 25 diamonds: exponential when shared sub-trees are duplicated
@@ -321,6 +332,8 @@ func c07Totality(w *writer.Writer, wd wildDoc, ro *native.RenderOptions, shared 
 	return outs, nil
 }
 
+var c07Seen sync.Once
+
 func c07Property(t *rapid.T) {
 	hx.Eval()
 	a, b := genWildDoc(t, "A"), genWildDoc(t, "B")
@@ -365,6 +378,30 @@ func c07Property(t *rapid.T) {
 	if _, err := c07Totality(w, b, ro, nil); err != nil {
 		t.Fatalf("%v\n document: %s", err, describeWild(b))
 	}
+	// ... and serializations that fail part-way in between (state a serializer keeps across calls must not survive its
+	// error paths either): the same document, and a document with identifiers of its own, each with an edge to a node
+	// that does not exist, a root that does not exist, or a document type of an unknown kind
+	{
+		breakage := rapid.SampledFrom([]string{"dangling_edge", "doctype_bad_enum", "dangling_root"}).Draw(t, "breakage")
+		other := sbom.NewDocument()
+		other.Metadata.Id, other.Metadata.Name = "urn:uuid:c0700000-0000-4000-8000-000000000007", "zz-other"
+		other.NodeList.AddRootNode(&sbom.Node{Id: "zz-other-root", Name: "zz-other-root"})
+		for _, id := range []string{"zz-ghost-1", "zz-ghost-2"} {
+			other.NodeList.AddNode(&sbom.Node{Id: id, Name: id, Version: "1"})
+		}
+		other.NodeList.Edges = append(other.NodeList.Edges, &sbom.Edge{From: "zz-other-root", Type: sbom.Edge_contains, To: []string{"zz-ghost-1"}},
+			&sbom.Edge{From: "zz-ghost-1", Type: sbom.Edge_contains, To: []string{"zz-ghost-2"}}, &sbom.Edge{From: "zz-ghost-2", Type: sbom.Edge_dependsOn, To: []string{"zz-ghost-1"}})
+		ob, _ := proto.Marshal(other)
+		for _, broken := range []wildDoc{{Base: a.Base, Ops: append(append([]string{}, a.Ops...), breakage)}, {Base: ob, Ops: []string{breakage}}} {
+			bo, err := c07Totality(w, broken, ro, nil)
+			if err != nil {
+				t.Fatalf("%v\n document: %s", err, describeWild(broken))
+			}
+			for f, o := range bo {
+				hx.ClassIf(o == "ERROR" && a1[f] != "ERROR", "failing_document_between_two_serializations:"+string(f))
+			}
+		}
+	}
 	a2, err := c07Totality(w, a, ro, sharedA)
 	if err != nil {
 		t.Fatalf("%v (second serialization)\n document: %s", err, describeWild(a))
@@ -375,6 +412,11 @@ func c07Property(t *rapid.T) {
 	}
 	for _, f := range registeredOutputFormats() {
 		if a1[f] != a2[f] || a1[f] != a3[f] {
+			// (a dependence on earlier serializations may not reproduce when rapid re-runs the case: say what was seen)
+			c07Seen.Do(func() {
+				fmt.Printf("VERIF-FAILURE: serializing the same document to %s twice (other documents, some failing, in between / fresh writer) gives different output: first %s | second %s | fresh %s\n",
+					f, trunc(a1[f], 400), trunc(a2[f], 400), trunc(a3[f], 400))
+			})
 			t.Fatalf("serializing the same document to %s twice (another document in between / fresh writer) gives different output:\n first : %s\n second: %s\n fresh : %s\n document: %s",
 				f, trunc(a1[f], 1500), trunc(a2[f], 1500), trunc(a3[f], 1500), describeWild(a))
 		}
